@@ -326,7 +326,7 @@ def run_case(ctx, spec: dict) -> str | None:
                 if e["junk"] == "read":
                     h.incoming_read(GA)
                 else:
-                    junk = {"array1": DPTArray((1,)), "array2": DPTArray((0, 1)), "binary_big": DPTBinary(2 + (e["t"] * 64) % 60)}[e["junk"]]
+                    junk = {"array1": DPTArray((1,)), "array2": DPTArray((0, 1)), "binary_big": DPTBinary(2 + int(e["t"] * 64) % 60)}[e["junk"]]
                     (h.incoming_write if e["as"] == "write" else h.incoming_response)(GA, junk)
                 trace.append(("rx-junk", t, e["junk"], e["as"]))
                 await h.settle()
